@@ -253,6 +253,7 @@ class StandardTextLayout(TextLayout):
             sp_o = ord(sp_o)
         segments = []
         idx = 0
+        hint_start = 0  # where the line of the last text-less removed-space hint began
 
         while idx <= len(text):
             # look for the next eligible line break
@@ -310,6 +311,7 @@ class StandardTextLayout(TextLayout):
                     if idx != prev and screen_columns > 0:
                         line = [(screen_columns, idx, prev), *line]
                     segments.append(line)
+                    hint_start = idx
                     idx = prev + 1
                     break
 
@@ -329,7 +331,9 @@ class StandardTextLayout(TextLayout):
                     if len(segments[-1]) == 1:
                         [(h_sc, h_off)] = segments[-1]
                         p_sc = 0
-                        p_off = _p_end = h_off
+                        _p_end = h_off
+                        # zero-width characters in front of the removed space are part of that line
+                        p_off = hint_start if text[h_off] == sp_o else h_off
 
                     else:
                         [(p_sc, p_off, _p_end), (h_sc, h_off)] = segments[-1]
